@@ -125,6 +125,8 @@ func exec(op string) (res string) {
 		return fmt.Sprintf("rows=%s err=%s", showRows(rows), errStr(err))
 	case "ast":
 		return astFacts()
+	case "sess", "sessx":
+		return execSess(op)
 	}
 	return "bad-op"
 }
